@@ -16,6 +16,8 @@
 name: str_substr.empty
 define: VP=str, U_SUBSTR, U_EMPTY
 src: str.c, obj.c
+native: str
+native_includes: str.c
 enforce: spif_str_substr
 backend: sat,z3
 timeout: 200
@@ -25,6 +27,8 @@ flags: --slice-formula
 name: str_substr.nonempty
 define: VP=str, U_SUBSTR, U_NONEMPTY
 src: str.c, obj.c
+native: str
+native_includes: str.c
 enforce: spif_str_substr
 backend: sat,z3
 timeout: 200
@@ -34,6 +38,8 @@ flags: --slice-formula
 name: str_substr_to_ptr.empty
 define: VP=str, U_SUBSTR_TO_PTR, U_EMPTY
 src: str.c, obj.c
+native: str
+native_includes: str.c
 enforce: spif_str_substr_to_ptr
 backend: sat,z3
 timeout: 200
@@ -43,6 +49,8 @@ flags: --slice-formula
 name: str_substr_to_ptr.nonempty
 define: VP=str, U_SUBSTR_TO_PTR, U_NONEMPTY
 src: str.c, obj.c
+native: str
+native_includes: str.c
 enforce: spif_str_substr_to_ptr
 backend: sat,z3
 timeout: 200
@@ -52,6 +60,8 @@ flags: --slice-formula
 name: str_splice.empty
 define: VP=str, U_SPLICE, U_EMPTY, U_OTHER_NONEMPTY
 src: str.c, obj.c
+native: str
+native_includes: str.c
 enforce: spif_str_splice
 backend: sat,z3
 timeout: 200
@@ -61,6 +71,8 @@ flags: --slice-formula
 name: str_splice.refused
 define: VP=str, VSTR_INST=0, VSTR_OWN_MEMCPY, VSTR_OWN_REALLOC, U_SPLICE, U_NONEMPTY, U_REFUSED, U_POSCNT
 src: str.c, obj.c
+native: str
+native_includes: str.c
 enforce: spif_str_splice
 backend: kissat,sat
 timeout: 600
@@ -70,6 +82,8 @@ flags: --slice-formula
 name: str_splice.safety
 define: VP=str, VSTR_INST=0, VSTR_OWN_MEMCPY, VSTR_OWN_REALLOC, U_SPLICE, U_NONEMPTY, U_ACCEPTED, U_POSCNT, U_ENS_CORE
 src: str.c, obj.c
+native: str
+native_includes: str.c
 enforce: spif_str_splice
 backend: kissat,sat
 timeout: 600
@@ -79,6 +93,8 @@ flags: --slice-formula
 name: str_splice.term
 define: VP=str, VSTR_INST=2, VSTR_OWN_MEMCPY, VSTR_OWN_REALLOC, U_SPLICE, U_NONEMPTY, U_ACCEPTED, U_POSCNT, U_ENS_TERM
 src: str.c, obj.c
+native: str
+native_includes: str.c
 enforce: spif_str_splice
 backend: kissat,sat
 timeout: 600
@@ -89,6 +105,8 @@ checks_off: --bounds-check --pointer-check --pointer-overflow-check --signed-ove
 name: str_splice.head
 define: VP=str, VSTR_INST=8, VSTR_OWN_MEMCPY, VSTR_OWN_REALLOC, U_SPLICE, U_NONEMPTY, U_ACCEPTED, U_POSCNT, U_VIEW_HEAD
 src: str.c, obj.c
+native: str
+native_includes: str.c
 enforce: spif_str_splice
 backend: kissat,sat
 timeout: 600
@@ -100,6 +118,8 @@ quick: no
 name: str_splice.ins
 define: VP=str, VSTR_INST=24, VSTR_OWN_MEMCPY, VSTR_OWN_REALLOC, U_SPLICE, U_NONEMPTY, U_ACCEPTED, U_POSCNT, U_VIEW_INS
 src: str.c, obj.c
+native: str
+native_includes: str.c
 enforce: spif_str_splice
 backend: kissat,sat
 timeout: 600
@@ -111,6 +131,8 @@ quick: no
 name: str_splice.tail
 define: VP=str, VSTR_INST=32, VSTR_OWN_MEMCPY, VSTR_OWN_REALLOC, U_SPLICE, U_NONEMPTY, U_ACCEPTED, U_POSCNT, U_VIEW_TAIL
 src: str.c, obj.c
+native: str
+native_includes: str.c
 enforce: spif_str_splice
 backend: kissat,sat
 timeout: 600
@@ -122,6 +144,8 @@ quick: no
 name: str_splice.negcnt
 define: VP=str, VSTR_INST=2, VSTR_OWN_MEMCPY, VSTR_OWN_REALLOC, U_SPLICE, U_NONEMPTY, U_NEGCNT, U_ENS_ACCEPT
 src: str.c, obj.c
+native: str
+native_includes: str.c
 enforce: spif_str_splice
 backend: kissat,sat
 timeout: 600
@@ -132,6 +156,8 @@ checks_off: --bounds-check --pointer-check --pointer-overflow-check --signed-ove
 name: str_splice_from_ptr.empty
 define: VP=str, U_SPLICE_FROM_PTR, U_EMPTY
 src: str.c, obj.c
+native: str
+native_includes: str.c
 enforce: spif_str_splice_from_ptr
 backend: sat,z3
 timeout: 200
@@ -141,6 +167,8 @@ flags: --slice-formula
 name: str_splice_from_ptr.refused
 define: VP=str, VSTR_INST=0, VSTR_OWN_MEMCPY, VSTR_OWN_REALLOC, U_SPLICE_FROM_PTR, U_NONEMPTY, U_REFUSED, U_POSCNT
 src: str.c, obj.c
+native: str
+native_includes: str.c
 enforce: spif_str_splice_from_ptr
 backend: kissat,sat
 timeout: 600
@@ -150,6 +178,8 @@ flags: --slice-formula
 name: str_splice_from_ptr.safety
 define: VP=str, VSTR_INST=0, VSTR_OWN_MEMCPY, VSTR_OWN_REALLOC, U_SPLICE_FROM_PTR, U_NONEMPTY, U_ACCEPTED, U_POSCNT, U_ENS_CORE
 src: str.c, obj.c
+native: str
+native_includes: str.c
 enforce: spif_str_splice_from_ptr
 backend: kissat,sat
 timeout: 600
@@ -159,6 +189,8 @@ flags: --slice-formula
 name: str_splice_from_ptr.term
 define: VP=str, VSTR_INST=2, VSTR_OWN_MEMCPY, VSTR_OWN_REALLOC, U_SPLICE_FROM_PTR, U_NONEMPTY, U_ACCEPTED, U_POSCNT, U_ENS_TERM
 src: str.c, obj.c
+native: str
+native_includes: str.c
 enforce: spif_str_splice_from_ptr
 backend: kissat,sat
 timeout: 600
@@ -169,6 +201,8 @@ checks_off: --bounds-check --pointer-check --pointer-overflow-check --signed-ove
 name: str_splice_from_ptr.head
 define: VP=str, VSTR_INST=8, VSTR_OWN_MEMCPY, VSTR_OWN_REALLOC, U_SPLICE_FROM_PTR, U_NONEMPTY, U_ACCEPTED, U_POSCNT, U_VIEW_HEAD
 src: str.c, obj.c
+native: str
+native_includes: str.c
 enforce: spif_str_splice_from_ptr
 backend: kissat,sat
 timeout: 600
@@ -180,6 +214,8 @@ quick: no
 name: str_splice_from_ptr.ins
 define: VP=str, VSTR_INST=24, VSTR_OWN_MEMCPY, VSTR_OWN_REALLOC, U_SPLICE_FROM_PTR, U_NONEMPTY, U_ACCEPTED, U_POSCNT, U_VIEW_INS
 src: str.c, obj.c
+native: str
+native_includes: str.c
 enforce: spif_str_splice_from_ptr
 backend: kissat,sat
 timeout: 600
@@ -191,6 +227,8 @@ quick: no
 name: str_splice_from_ptr.tail
 define: VP=str, VSTR_INST=32, VSTR_OWN_MEMCPY, VSTR_OWN_REALLOC, U_SPLICE_FROM_PTR, U_NONEMPTY, U_ACCEPTED, U_POSCNT, U_VIEW_TAIL
 src: str.c, obj.c
+native: str
+native_includes: str.c
 enforce: spif_str_splice_from_ptr
 backend: kissat,sat
 timeout: 600
@@ -202,6 +240,8 @@ quick: no
 name: str_splice_from_ptr.negcnt
 define: VP=str, VSTR_INST=2, VSTR_OWN_MEMCPY, VSTR_OWN_REALLOC, U_SPLICE_FROM_PTR, U_NONEMPTY, U_NEGCNT, U_ENS_ACCEPT
 src: str.c, obj.c
+native: str
+native_includes: str.c
 enforce: spif_str_splice_from_ptr
 backend: kissat,sat
 timeout: 600
@@ -212,6 +252,8 @@ checks_off: --bounds-check --pointer-check --pointer-overflow-check --signed-ove
 name: ustr_substr.empty
 define: VP=ustr, U_SUBSTR, U_EMPTY
 src: ustr.c, obj.c
+native: str
+native_includes: ustr.c
 enforce: spif_ustr_substr
 backend: sat,z3
 timeout: 200
@@ -221,6 +263,8 @@ flags: --slice-formula
 name: ustr_substr.nonempty
 define: VP=ustr, U_SUBSTR, U_NONEMPTY
 src: ustr.c, obj.c
+native: str
+native_includes: ustr.c
 enforce: spif_ustr_substr
 backend: sat,z3
 timeout: 200
@@ -230,6 +274,8 @@ flags: --slice-formula
 name: ustr_substr_to_ptr.empty
 define: VP=ustr, U_SUBSTR_TO_PTR, U_EMPTY
 src: ustr.c, obj.c
+native: str
+native_includes: ustr.c
 enforce: spif_ustr_substr_to_ptr
 backend: sat,z3
 timeout: 200
@@ -239,6 +285,8 @@ flags: --slice-formula
 name: ustr_substr_to_ptr.nonempty
 define: VP=ustr, U_SUBSTR_TO_PTR, U_NONEMPTY
 src: ustr.c, obj.c
+native: str
+native_includes: ustr.c
 enforce: spif_ustr_substr_to_ptr
 backend: sat,z3
 timeout: 200
@@ -248,6 +296,8 @@ flags: --slice-formula
 name: ustr_splice.empty
 define: VP=ustr, U_SPLICE, U_EMPTY, U_OTHER_NONEMPTY
 src: ustr.c, obj.c
+native: str
+native_includes: ustr.c
 enforce: spif_ustr_splice
 backend: sat,z3
 timeout: 200
@@ -257,6 +307,8 @@ flags: --slice-formula
 name: ustr_splice.refused
 define: VP=ustr, VSTR_INST=0, VSTR_OWN_MEMCPY, VSTR_OWN_REALLOC, U_SPLICE, U_NONEMPTY, U_REFUSED, U_POSCNT
 src: ustr.c, obj.c
+native: str
+native_includes: ustr.c
 enforce: spif_ustr_splice
 backend: kissat,sat
 timeout: 600
@@ -266,6 +318,8 @@ flags: --slice-formula
 name: ustr_splice.safety
 define: VP=ustr, VSTR_INST=0, VSTR_OWN_MEMCPY, VSTR_OWN_REALLOC, U_SPLICE, U_NONEMPTY, U_ACCEPTED, U_POSCNT, U_ENS_CORE
 src: ustr.c, obj.c
+native: str
+native_includes: ustr.c
 enforce: spif_ustr_splice
 backend: kissat,sat
 timeout: 600
@@ -276,6 +330,8 @@ quick: no
 name: ustr_splice.term
 define: VP=ustr, VSTR_INST=2, VSTR_OWN_MEMCPY, VSTR_OWN_REALLOC, U_SPLICE, U_NONEMPTY, U_ACCEPTED, U_POSCNT, U_ENS_TERM
 src: ustr.c, obj.c
+native: str
+native_includes: ustr.c
 enforce: spif_ustr_splice
 backend: kissat,sat
 timeout: 600
@@ -287,6 +343,8 @@ quick: no
 name: ustr_splice.head
 define: VP=ustr, VSTR_INST=8, VSTR_OWN_MEMCPY, VSTR_OWN_REALLOC, U_SPLICE, U_NONEMPTY, U_ACCEPTED, U_POSCNT, U_VIEW_HEAD
 src: ustr.c, obj.c
+native: str
+native_includes: ustr.c
 enforce: spif_ustr_splice
 backend: kissat,sat
 timeout: 600
@@ -298,6 +356,8 @@ quick: no
 name: ustr_splice.ins
 define: VP=ustr, VSTR_INST=24, VSTR_OWN_MEMCPY, VSTR_OWN_REALLOC, U_SPLICE, U_NONEMPTY, U_ACCEPTED, U_POSCNT, U_VIEW_INS
 src: ustr.c, obj.c
+native: str
+native_includes: ustr.c
 enforce: spif_ustr_splice
 backend: kissat,sat
 timeout: 600
@@ -309,6 +369,8 @@ quick: no
 name: ustr_splice.tail
 define: VP=ustr, VSTR_INST=32, VSTR_OWN_MEMCPY, VSTR_OWN_REALLOC, U_SPLICE, U_NONEMPTY, U_ACCEPTED, U_POSCNT, U_VIEW_TAIL
 src: ustr.c, obj.c
+native: str
+native_includes: ustr.c
 enforce: spif_ustr_splice
 backend: kissat,sat
 timeout: 600
@@ -320,6 +382,8 @@ quick: no
 name: ustr_splice.negcnt
 define: VP=ustr, VSTR_INST=2, VSTR_OWN_MEMCPY, VSTR_OWN_REALLOC, U_SPLICE, U_NONEMPTY, U_NEGCNT, U_ENS_ACCEPT
 src: ustr.c, obj.c
+native: str
+native_includes: ustr.c
 enforce: spif_ustr_splice
 backend: kissat,sat
 timeout: 600
@@ -331,6 +395,8 @@ quick: no
 name: ustr_splice_from_ptr.empty
 define: VP=ustr, U_SPLICE_FROM_PTR, U_EMPTY
 src: ustr.c, obj.c
+native: str
+native_includes: ustr.c
 enforce: spif_ustr_splice_from_ptr
 backend: sat,z3
 timeout: 200
@@ -340,6 +406,8 @@ flags: --slice-formula
 name: ustr_splice_from_ptr.refused
 define: VP=ustr, VSTR_INST=0, VSTR_OWN_MEMCPY, VSTR_OWN_REALLOC, U_SPLICE_FROM_PTR, U_NONEMPTY, U_REFUSED, U_POSCNT
 src: ustr.c, obj.c
+native: str
+native_includes: ustr.c
 enforce: spif_ustr_splice_from_ptr
 backend: kissat,sat
 timeout: 600
@@ -349,6 +417,8 @@ flags: --slice-formula
 name: ustr_splice_from_ptr.safety
 define: VP=ustr, VSTR_INST=0, VSTR_OWN_MEMCPY, VSTR_OWN_REALLOC, U_SPLICE_FROM_PTR, U_NONEMPTY, U_ACCEPTED, U_POSCNT, U_ENS_CORE
 src: ustr.c, obj.c
+native: str
+native_includes: ustr.c
 enforce: spif_ustr_splice_from_ptr
 backend: kissat,sat
 timeout: 600
@@ -359,6 +429,8 @@ quick: no
 name: ustr_splice_from_ptr.term
 define: VP=ustr, VSTR_INST=2, VSTR_OWN_MEMCPY, VSTR_OWN_REALLOC, U_SPLICE_FROM_PTR, U_NONEMPTY, U_ACCEPTED, U_POSCNT, U_ENS_TERM
 src: ustr.c, obj.c
+native: str
+native_includes: ustr.c
 enforce: spif_ustr_splice_from_ptr
 backend: kissat,sat
 timeout: 600
@@ -370,6 +442,8 @@ quick: no
 name: ustr_splice_from_ptr.head
 define: VP=ustr, VSTR_INST=8, VSTR_OWN_MEMCPY, VSTR_OWN_REALLOC, U_SPLICE_FROM_PTR, U_NONEMPTY, U_ACCEPTED, U_POSCNT, U_VIEW_HEAD
 src: ustr.c, obj.c
+native: str
+native_includes: ustr.c
 enforce: spif_ustr_splice_from_ptr
 backend: kissat,sat
 timeout: 600
@@ -381,6 +455,8 @@ quick: no
 name: ustr_splice_from_ptr.ins
 define: VP=ustr, VSTR_INST=24, VSTR_OWN_MEMCPY, VSTR_OWN_REALLOC, U_SPLICE_FROM_PTR, U_NONEMPTY, U_ACCEPTED, U_POSCNT, U_VIEW_INS
 src: ustr.c, obj.c
+native: str
+native_includes: ustr.c
 enforce: spif_ustr_splice_from_ptr
 backend: kissat,sat
 timeout: 600
@@ -392,6 +468,8 @@ quick: no
 name: ustr_splice_from_ptr.tail
 define: VP=ustr, VSTR_INST=32, VSTR_OWN_MEMCPY, VSTR_OWN_REALLOC, U_SPLICE_FROM_PTR, U_NONEMPTY, U_ACCEPTED, U_POSCNT, U_VIEW_TAIL
 src: ustr.c, obj.c
+native: str
+native_includes: ustr.c
 enforce: spif_ustr_splice_from_ptr
 backend: kissat,sat
 timeout: 600
@@ -403,6 +481,8 @@ quick: no
 name: ustr_splice_from_ptr.negcnt
 define: VP=ustr, VSTR_INST=2, VSTR_OWN_MEMCPY, VSTR_OWN_REALLOC, U_SPLICE_FROM_PTR, U_NONEMPTY, U_NEGCNT, U_ENS_ACCEPT
 src: ustr.c, obj.c
+native: str
+native_includes: ustr.c
 enforce: spif_ustr_splice_from_ptr
 backend: kissat,sat
 timeout: 600
